@@ -71,3 +71,31 @@ def probability_value(value, name):
         raise TypeError(msg)
     if value < 0 or value > 1:
         raise ValueError(msg)
+
+
+def seed_value(seed):
+    """A value for `random.seed` out of any hashable object
+
+    Since python 3.11 `random.seed` takes just numbers, strings and
+    bytes. Tuples and frozensets of such values are turned into
+    a text, which is the same in every process (their hash is not:
+    it changes with PYTHONHASHSEED when a string is involved). Any
+    other hashable object is represented by its hash.
+    """
+    if seed is None or isinstance(seed, (int, float, str, bytes, bytearray)):
+        return seed
+    hash(seed)  # raises TypeError for an unhashable object
+
+    def text(value):
+        if value is None or isinstance(value, (int, float, str, bytes)):
+            return repr(value)
+        if isinstance(value, tuple):
+            return '(' + ','.join(text(v) for v in value) + ')'
+        if isinstance(value, frozenset):
+            return '{' + ','.join(sorted(text(v) for v in value)) + '}'
+        raise TypeError
+
+    try:
+        return text(seed)
+    except TypeError:
+        return hash(seed)
